@@ -35,9 +35,11 @@ pub struct WordCfg {
 pub fn word_cfgs(rng: &mut Rng) -> Vec<WordCfg> {
   // (custom words may be any text without white space, also non-ASCII; the first character stays ASCII so that the
   // same-length "neutralised" variant of a directive can be formed)
-  let customs = ["my-ignore-file", "x-ignore", "deno-lint-ignore-file", "fichier-ignoré", "deno-lint-ignore", "lint-skip", "skip-file", "x-игнор"];
-  let cf = customs[rng.below(4)];
-  let cl = customs[4 + rng.below(4)];
+  // … and punctuation: a word is whatever stands between white space
+  let file_customs = ["my-ignore-file", "x-ignore", "deno-lint-ignore-file", "fichier-ignoré", "@lint-ignore-file", "lint:ignore-file", "nolint!", "e\u{301}x.ignore~file"];
+  let line_customs = ["deno-lint-ignore", "lint-skip", "skip-file", "x-игнор", "@lint-ignore", "lint:ignore(next)", "nolint?", "l\u{301}nt/ignore"];
+  let cf = file_customs[rng.below(file_customs.len())];
+  let cl = line_customs[rng.below(line_customs.len())];
   let v = vec![
     WordCfg { words: Words { file: None, line: None }, file_word: "deno-lint-ignore-file".into(), line_word: "deno-lint-ignore".into(), decoys: vec![], name: "default/default" },
     WordCfg { words: Words { file: Some(leak(cf)), line: None }, file_word: cf.into(), line_word: "deno-lint-ignore".into(), decoys: vec!["deno-lint-ignore-file".into()], name: "custom/default" },
